@@ -39,3 +39,10 @@ Definition binof_R (index : R -> Z) (rmin rmax : R) (nbin : Z) (s : option R) (d
 (* htm.py:894-905: lower edge of bin k (the upper edge is the lower edge of bin k+1) *)
 Definition edge (rmin rmax : R) (nbin : Z) (k : Z) : R :=
   pow10 (log10 rmin + log_binsize rmin rmax nbin * IZR k).
+
+(* htmc.cc (since fixes/C13/0002): the cosine handed to SpatialDomain::setRaDecD is that of maxangle (degrees when no scale was
+   sent, else radians) plus a margin of [pad] degrees, clipped at pi.  c13_gen.py translates the C expression into a term and the
+   check proves it equal to this definition on every run. *)
+Definition search_cos (pad : R) (degrees : bool) (maxangle : R) : R :=
+  let sa := (if degrees then maxangle * D2R else maxangle) + pad * D2R in
+  cos (if Rlt_dec PI sa then PI else sa).
